@@ -234,8 +234,17 @@ func genCfg06(r *rand.Rand) mCfg {
 	if r.Intn(25) == 0 {
 		cfg.Method = pick(r, c06BadMethods)
 	}
-	if r.Intn(3) == 0 {
-		cfg.Signer = iptr(pick(r, []int64{2, 3}))
+	switch r.Intn(8) {
+	case 0:
+		cfg.Signer, cfg.SignerKind = iptr(pick(r, []int64{2, 3})), "rsa"
+	case 1, 2:
+		cfg.Signer, cfg.SignerKind = iptr(pick(r, []int64{2, 3})), "opaque-rsa"
+	case 3:
+		cfg.Signer, cfg.SignerKind = iptr(ecSignerID), "ecdsa"
+		if r.Intn(4) != 0 { // mostly a method the key can use; otherwise (RSA method / default) the model says error
+			cfg.Method = pick(r, []string{"http://www.w3.org/2001/04/xmldsig-more#ecdsa-sha1", "http://www.w3.org/2001/04/xmldsig-more#ecdsa-sha256",
+				"http://www.w3.org/2001/04/xmldsig-more#ecdsa-sha384", "http://www.w3.org/2001/04/xmldsig-more#ecdsa-sha512"})
+		}
 	}
 	if r.Intn(5) == 0 {
 		cfg.Entity = "https://idp2.example.net/md?x=1"
@@ -426,7 +435,7 @@ func extraChecks(in c06Input, res c06Result) []string {
 	if in.cfg.Signer != nil {
 		signerID = *in.cfg.Signer
 	}
-	want := certB64List(certOf(signerID))
+	want := certB64List(certOfAny(signerID))
 	if in.intermediates {
 		want = append(want, certB64List(fix.Cert("rsa_3072"))...)
 	}
@@ -575,7 +584,7 @@ func runC06(c *Ctx) {
 		in, key := genInput06(c.Rng, simpleKDs)
 		key["method"] = in.cfg.Method
 		if in.cfg.Signer != nil {
-			key["signer"] = "crypto.Signer"
+			key["signer"] = "crypto.Signer:" + in.cfg.SignerKind
 		} else {
 			key["signer"] = "Key"
 		}
